@@ -20,7 +20,7 @@ FUNCTIONS = ['mofun.helpers.typekey', 'mofun.rough_uff.calc_angles', 'mofun.roug
 BOUNDS = {'quick': 'typekey: arities 2-4 over unbounded symbolic ints; graphs: 14 shapes of <=8 atoms x all 2^B direction flips (B<=6) or 16 seeded '
                    'flip/rotation variants; typing: 4-atom chain and 4-atom star with all 8^4 typings over an 8-name alphabet covering every torsion branch',
           'thorough': 'typing on a 5-atom branched graph (8^5 typings sampled by the solver up to the path budget) and 5-ring'}
-OUTSIDE = ['graphs with three-membered rings or isolated atoms (outside the property)', 'UFF type names outside the 8-name alphabet (C18 covers the '
+OUTSIDE = ['graphs with isolated atoms (outside the property); for three-membered rings only chains of four distinct atoms are required, the degenerate closed chain is tolerated', 'UFF type names outside the 8-name alphabet (C18 covers the '
            'parameter functions over the whole table)', 'graphs beyond the catalogue']
 ASSUMPTIONS = ['atom ids are the integers 0..n-1', 'bond lists hold each edge once']
 STUBS = []
@@ -34,6 +34,10 @@ GRAPHS = {
     'fused-rings': [(0, 1), (1, 2), (2, 3), (3, 0), (2, 4), (4, 5), (5, 3)], 'spiro': [(0, 1), (1, 2), (2, 3), (3, 0), (0, 4), (4, 5), (5, 6), (6, 0)],
     'metal-node': [(0, 1), (0, 2), (0, 3), (0, 4), (1, 5), (2, 6)], 'two-molecules': [(0, 1), (1, 2), (3, 4), (4, 5), (5, 6)],
     'ethane-like': [(0, 1), (0, 2), (0, 3), (0, 4), (4, 5), (4, 6), (4, 7)], 'pair': [(0, 1)],
+    # three-membered rings: the chain c-a-b-c around a ring bond is degenerate (first atom = last atom); the property speaks of chains
+    # i-j-k-l, so only chains of four DISTINCT atoms are required (each once) and a degenerate tuple is tolerated, never required
+    'ring3-substituted': [(0, 1), (1, 2), (2, 0), (0, 3), (1, 4), (4, 5)], 'ring3-fused-ring4': [(0, 1), (1, 2), (2, 0), (1, 3), (3, 4), (4, 2)],
+    'metal-triangle': [(0, 1), (1, 2), (2, 0), (0, 3), (0, 4), (1, 5), (2, 6)],
 }
 
 
@@ -164,7 +168,12 @@ def body(ctx, p):
             adj.setdefault(a, set()).add(b)
             adj.setdefault(b, set()).add(a)
         want_angles = sorted(canon((x, c, y)) for c in adj for x, y in itertools.combinations(sorted(adj[c]), 2))
-        want_dih = sorted(canon((i, j, k, l)) for j, k in edges for i in adj[j] - {k} for l in adj[k] - {j})
+        want_dih = sorted(canon((i, j, k, l)) for j, k in edges for i in adj[j] - {k} for l in adj[k] - {j} if i != l)
+        degenerate = [t for t in dihs if len(set(t)) < 4]
+        ctx.require('a reported dihedral with a repeated atom is at most the closed chain c-a-b-c of a three-membered ring',
+                    all(len(set(t)) == 3 and t[0] == t[3] and t[1] in adj[t[0]] and t[2] in adj[t[1]] and t[0] in adj[t[2]] for t in degenerate),
+                    detail=dict(degenerate=degenerate[:4]))
+        dihs = [t for t in dihs if len(set(t)) == 4]
         ctx.observe('n_angles', len(angles))
         ctx.observe('n_dihedrals', len(dihs))
         ctx.require('every pair of distinct bonds sharing an atom is an angle exactly once', sorted(canon(t) for t in angles) == want_angles,
@@ -204,7 +213,7 @@ def body(ctx, p):
             'ethane-like': {1, 0, 4, 5}}.get(p['graph'])
     excl_bit = ctx.choose(3 if four else 2, 'exclude')
 
-    def run(perm, reverse_lists, exclude):
+    def run(perm, reverse_lists, exclude, flip_alternate=False):
         inv = {old: new for new, old in enumerate(perm)}
         bl = [(inv[a], inv[b]) for a, b in edges]
         nm = [names[perm[i]] for i in range(n)]
@@ -216,6 +225,12 @@ def body(ctx, p):
         if reverse_lists:
             a.angles = a.angles[::-1]
             a.dihedrals = a.dihedrals[::-1]
+        if flip_alternate:
+            # terms listed in MIXED directions (every second angle / dihedral written from its other end), as in hand-built lists or files
+            # written by other tools: same physical terms, so same coefficients
+            a.angles = np.array([t[::-1] if j % 2 else t for j, t in enumerate(a.angles)]).reshape(-1, 3)
+            a.dihedrals = np.array([t[::-1] if j % 2 else t for j, t in enumerate(a.dihedrals)]).reshape(-1, 4)
+            a.bonds = np.array([t[::-1] if j % 2 else t for j, t in enumerate(a.bonds)]).reshape(-1, 2)
         ex = None if exclude is None else set(inv[x] for x in exclude)
         res = {}
         try:
@@ -245,13 +260,21 @@ def body(ctx, p):
     r0 = run(list(range(n)), False, exclude)
     r1 = run(list(range(n))[::-1], True, exclude)
     r2 = run([(i + 1) % n for i in range(n)], False, exclude)
+    r3 = run(list(range(n)), False, exclude, flip_alternate=True)
     ctx.observe('keys', sorted(r0.keys()))
-    ctx.require('every dihedral type id indexes a coefficient row', all(r.get('dih_ids_valid', True) for r in (r0, r1, r2)))
-    if not all(r.get('dih_ids_valid', True) for r in (r0, r1, r2)):
+    ctx.require('every dihedral type id indexes a coefficient row', all(r.get('dih_ids_valid', True) for r in (r0, r1, r2, r3)))
+    if not all(r.get('dih_ids_valid', True) for r in (r0, r1, r2, r3)):
         return
     ctx.require('identical outcome (coefficients per physical term, or the same error) under atom renaming and term-list reversal',
                 all({k: v for k, v in r.items() if not k.endswith('_ids') and k != 'n_dih_types'} == {k: v for k, v in r0.items() if not k.endswith('_ids') and k != 'n_dih_types'}
                     for r in (r1, r2)), detail=dict(r0=str(r0)[:300], r1=str(r1)[:300]))
+    strip = lambda r: {k: v for k, v in r.items() if not k.endswith('_ids') and k != 'n_dih_types'}
+    ctx.require('identical outcome when individual terms are listed from their other end (mixed directions in one list)', strip(r3) == strip(r0),
+                detail=dict(r0=str(r0)[:300], r3=str(r3)[:300]))
+    if 'dihedral_ids' in r0 and 'dihedral_ids' in r3:
+        same0 = {(a_, b_): r0['dihedral_ids'][a_] == r0['dihedral_ids'][b_] for a_ in r0['dihedral_ids'] for b_ in r0['dihedral_ids']}
+        same3 = {(a_, b_): r3['dihedral_ids'][a_] == r3['dihedral_ids'][b_] for a_ in r3['dihedral_ids'] for b_ in r3['dihedral_ids']}
+        ctx.require('the partition of dihedrals into types does not depend on the direction in which each is listed', same0 == same3)
     adj = {}
     for a_, b_ in edges:
         adj.setdefault(a_, set()).add(b_)
